@@ -404,7 +404,35 @@ impl SuffixArrayBuilder {
     /// SA-IS (Suffix Array by Induced Sorting) algorithm implementation
     fn sais_construct(&self, text: &[u8]) -> Result<Vec<usize>> {
         // Add recursion depth limit to prevent stack overflow
-        self.sais_construct_with_depth(text, 0)
+        let sa = self.sais_construct_with_depth(text, 0)?;
+        // The induced-sorting passes do not handle every input yet (no sentinel, byte-sized LMS
+        // names): check the result in linear time and fall back to comparison sorting.
+        if Self::is_suffix_array(text, &sa) {
+            Ok(sa)
+        } else {
+            self.fallback_sort(text)
+        }
+    }
+
+    /// Linear-time suffix array check: `sa` is a permutation of 0..n, first bytes are
+    /// non-decreasing, and suffixes with equal first bytes are ordered by the rank of the suffix
+    /// that follows (the empty suffix ranks before all others).
+    fn is_suffix_array(text: &[u8], sa: &[usize]) -> bool {
+        let n = text.len();
+        if sa.len() != n {
+            return false;
+        }
+        let mut rank = vec![usize::MAX; n + 1];
+        for (r, &p) in sa.iter().enumerate() {
+            if p >= n || rank[p] != usize::MAX {
+                return false;
+            }
+            rank[p] = r + 1;
+        }
+        rank[n] = 0;
+        sa.windows(2).all(|w| {
+            text[w[0]] < text[w[1]] || (text[w[0]] == text[w[1]] && rank[w[0] + 1] < rank[w[1] + 1])
+        })
     }
     
     fn sais_construct_with_depth(&self, text: &[u8], depth: usize) -> Result<Vec<usize>> {
